@@ -303,6 +303,17 @@ def check_single(d, ck):
                         ck.fail(fname, "value", c, "%s at the type's limits (%s): %s; numpy gives %s, the exact value is %s"
                                 % (d, what, None if g is None else g.tolist(), want_np.tolist(), want_exact.tolist()))
                         break
+            # a requested narrow result type: numpy's own (wrapping) arithmetic in that type, in that type
+            with warnings.catch_warnings(), numpy.errstate(all="ignore"):
+                warnings.simplefilter("ignore")
+                want = numpy.matmul(xs2, xs2, dtype=d)
+                ck.run("matmul(dtype=)", c, lambda: numpy.matmul(numpoly.polynomial(xs2), numpoly.polynomial(xs2), dtype=d),
+                       {(0,): want}, want.dtype, d)
+            # a monomial to a power that is a larger number than the coefficient type holds: the exponent is not a
+            # coefficient
+            big_n = 300 if numpy.dtype(d).itemsize == 1 else (70000 if numpy.dtype(d).itemsize == 2 else 10 ** 5)
+            one = numpy.array(1, dtype=d)
+            ck.run("monomial ** n", c, lambda: numpoly.variable(dtype=d) ** big_n, {(big_n,): one}, d, "%s ** %d" % (d, big_n))
         # a determinant beyond the signed 64-bit range (unsigned entries >= 2**63): numpy answers in floating point
         if d == "uint64":
             big = numpy.array([[2 ** 63 + 5, 0], [0, 1]], dtype=d)
@@ -674,6 +685,13 @@ def check_python_ints(ck):
                 ("sum([int, 1])", lambda: numpoly.sum([v, 0]), lambda: numpy.sum([v, 0]))):
             want = ref()
             ck.run(label, "python-int", make, {(0,): want}, want.dtype, "%s with %d" % (label, v))
+    # coefficient lists with a requested dtype are cast like numpy.array(list, dtype=) casts them: directly
+    for lst, d in (([2 ** 63 - 1, 2 ** 63], "uint64"), ([2 ** 53 + 1, 3], "int64"), ([2 ** 53 + 1, 3], "uint64")):
+        want = numpy.array(lst, dtype=d)
+        ck.run("polynomial_from_attributes(list,dtype)", "python-int",
+               lambda: numpoly.polynomial_from_attributes([(0,), (1,)], [lst, lst], dtype=d), {(0,): want, (1,): want}, d, str(lst))
+        ck.run("polynomial(dict-of-lists,dtype)", "python-int",
+               lambda: numpoly.polynomial({(0,): lst, (2,): lst}, dtype=d), {(0,): want, (2,): want}, d, str(lst))
 
 
 def check_case(case, ctx):
